@@ -48,7 +48,7 @@ fn tiny_spec(run_seed: u64) -> PipeSpec {
     }
     // (drawn last) a queue barely larger than one contig: back-pressure, and anything that is
     // budgeted by the queue capacity (pending output, in-flight work) is over budget early
-    if r.pct(30) {
+    if r.pct(15) {
         let floor = s.gen.max_len as u64 + 64;
         s.cfg.queue_capacity = format!("{}", floor + r.below(16));
         // enough output to exceed that budget several times over before finalize
@@ -198,7 +198,7 @@ impl Prop for C15 {
         "each evaluation = one create run with one injected failing write: for every sampled source (tiny seeded workload x BufWriter capacity in {1,7,4096,4MiB} x verbosity 0..3 x CLI driver or library API with drain/sync_and_flush at generated points x benign short writes/EINTR underneath on or off) the first failing write is placed at EVERY byte offset 0..=len of the archive (ENOSPC/EFBIG: the write reaching the offset is cut there, later writes fail), at every write-call index (sticky EIO, and transient EIO/ENOSPC that fails once) and at every flush-call index (EIO); oracle: create returns Err, or returns Ok with a file byte-identical to the fault-free archive. distinct_nontrivial = distinct (source archive digest, fault kind, position) triples."
     }
     fn runs(&self, tier: Tier) -> u64 {
-        match tier { Tier::Quick => 640, Tier::Thorough => 25_000 }
+        match tier { Tier::Quick => 576, Tier::Thorough => 25_000 }
     }
     fn run_chunk(&self, ctx: &Ctx, indices: &[u64]) -> Vec<RunReport> {
         indices.iter().map(|&i| explore(tiny_spec(seed::run_seed(ctx.base_seed ^ 0xC15, i)), None, i, i < 2)).collect()
